@@ -166,6 +166,10 @@ impl CustomAccountInterface for TimelockController {
         context_meta: Vec<OperationMeta>,
         auth_contexts: Vec<Context>,
     ) -> Result<(), Self::Error> {
+        // Every authorized context must be matched by exactly one operation descriptor
+        if context_meta.len() != auth_contexts.len() {
+            panic_with_error!(&e, TimelockError::Unauthorized)
+        }
         for (context, meta) in auth_contexts.iter().zip(context_meta) {
             match context.clone() {
                 Context::Contract(ContractContext { contract, fn_name, args }) => {
